@@ -157,31 +157,75 @@ theorem reconnect_clean_connection (c : Conn) (hc : PoolClean c.db) :
     connection and fails with an error that is not a disconnect (IntegrityError, or an
     OperationalError the dialect does not classify, no reclassifying listener) leaves the
     Connection valid on the SAME DBAPI connection and the pool queue and invalidation time
-    untouched. -/
+    untouched — provided the error handler's own ROLLBACK (emitted when the statement failed
+    before a transaction had begun) does not itself meet a dead connection
+    (`handler_rollback_disconnect_invalidates` below covers that case). -/
 theorem non_disconnect_leaves_pool (c : Conn) (q : Sql) (hd : c.hasDbapi = true)
     (hl : c.db.listener ≠ .forceDisc)
+    (hnr : ∀ f, f ∈ c.db.faults → f.1 = .rollback → f.2 = .err)
     (hr : (c.execute q).2 = .operational ∨ (c.execute q).2 = .integrity) :
     (c.execute q).1.hasDbapi = true ∧ (c.execute q).1.db.raw.rid = c.db.raw.rid ∧
     (c.execute q).1.db.idle = c.db.idle ∧ (c.execute q).1.db.invalTime = c.db.invalTime := by
-  rcases execute_ps c q hd hl with h | h
+  rcases execute_ps c q hd hl with h | h | h | h
   · exact ⟨by rw [h.hasDbapi]; exact hd, h.rid, h.idle, h.invalTime⟩
-  · rcases h with h | h <;> rcases hr with hr | hr <;> rw [h] at hr <;> cases hr
+  · rcases hr with hr | hr <;> rw [h] at hr <;> cases hr
+  · rcases hr with hr | hr <;> rw [h] at hr <;> cases hr
+  · obtain ⟨f, hm, h1, h2⟩ := h
+    exact absurd (hnr f hm h1) h2
 
 /-- the handler itself, for every state: not a disconnect ⇒ connection and pool unchanged -/
-theorem plain_error_leaves_pool (c : Conn) (hl : c.db.listener ≠ .forceDisc) :
+theorem plain_error_leaves_pool (c : Conn) (hl : c.db.listener ≠ .forceDisc)
+    (hnr : ∀ f, f ∈ c.db.faults → f.1 = .rollback → f.2 = .err) :
     (c.dbapiError .err).2 = .operational ∧ (c.dbapiError .err).1.hasDbapi = c.hasDbapi ∧
     (c.dbapiError .err).1.db.idle = c.db.idle ∧ (c.dbapiError .err).1.db.invalTime = c.db.invalTime := by
   have hl' : (c.db.listener == .forceDisc) = false := by simpa using hl
   have e : c.dbapiError .err = c.plainError := by simp [Conn.dbapiError, hl']
   rw [e]
-  have h := plainError_poolSame c
+  have h : PoolSame c c.plainError.1 := by
+    rcases plainError_poolSame c with h | ⟨f, hm, h1, h2⟩
+    · exact h
+    · exact absurd (hnr f hm h1) h2
   refine ⟨?_, h.hasDbapi, h.idle, h.invalTime⟩
   unfold Conn.plainError
   split
   · rfl
   · split
-    · split <;> rfl
+    · split
+      · rfl
+      · cases hf : c.db.takeFault .rollback with
+        | mk o db1 =>
+          cases o with
+          | none => rfl
+          | some k =>
+            have := hnr _ (takeFault_some_mem hf) rfl
+            simp only at this
+            subst this
+            rfl
     · rfl
+
+/-- **handler_rollback_disconnect_invalidates**: a statement fails with an ORDINARY error
+    before a transaction has begun (cursor creation), the error handler emits its autorollback,
+    and that ROLLBACK fails with a disconnect-classified error (re-entrant
+    `_handle_dbapi_exception`): the error raised is the ordinary one, not flagged
+    `connection_invalidated` — but Connection and pool end up exactly as if the disconnect
+    had been met directly (so `disconnect_invalidates`, `disconnect_invalidates_pool` and
+    `stale_never_handed_out` apply to what follows). -/
+theorem handler_rollback_disconnect_invalidates (c : Conn) (db1 : DB) (hd : c.hasDbapi = true)
+    (hr : c.canReconnect = true) (ht : c.inTransaction = false) (hs : c.db.skipsRollback = false)
+    (hl : c.db.listener ≠ .forceDisc) (hf : c.db.takeFault .rollback = (some .disc, db1)) :
+    (c.dbapiError .err).2 = .operational ∧ (c.dbapiError .err).1.invalidated = true ∧
+    (c.dbapiError .err).1 = (({ c with db := db1 } : Conn).dbapiError .disc).1 := by
+  have hl' : (c.db.listener == .forceDisc) = false := by simpa using hl
+  have e : c.dbapiError .err = c.plainError := by simp [Conn.dbapiError, hl']
+  have e2 : c.plainError = ((({ c with db := db1 } : Conn).discError).1, .operational) := by
+    simp [Conn.plainError, ht, hd, hs, hf]
+  have e3 : ({ c with db := db1 } : Conn).dbapiError .disc = ({ c with db := db1 } : Conn).discError :=
+    dbapiError_disc _ _ (Or.inl rfl)
+  rw [e, e2, e3]
+  refine ⟨rfl, ?_, rfl⟩
+  have := disconnect_invalidates ({ c with db := db1 } : Conn) .disc hd hr (Or.inl rfl)
+  rw [e3] at this
+  exact this.2.1
 
 /-! ## failing reconnects, pool_recycle -/
 
@@ -304,5 +348,15 @@ example : ((c0r.run [.warm 2, .arm .execute .disc, .exec (.ins 1), .rollback, .e
 def c0r2 : Conn := Conn.connect (DB.init .rollback .none [] (some 1))
 example : ((c0r2.run [.warm 2, .close, .connect]).db.raw.rid) = 3 := by decide
 example : ((c0.run [.warm 2, .close, .connect]).db.raw.rid) = 1 := by decide
+
+/-- the handler's own autorollback meets the dead connection: the statement reports the
+    ordinary error, the Connection is invalidated, the pooled connection #1 is stale and the
+    next statement runs on a new connection #2 -/
+def handlerOps : List Op := [.warm 1, .arm .cursor .err, .arm .rollback .disc, .exec .sel]
+example : ((c0.trace handlerOps).map (·.1)).getLast? = some .operational ∧
+    (c0.run handlerOps).invalidated = true ∧
+    (c0.run handlerOps).db.idle.map (fun o => o.map (fun r => decide (r.born < (c0.run handlerOps).db.invalTime)))
+      = [some true, none] ∧
+    ((c0.run handlerOps).step (.exec .sel)).1.db.raw.rid = 2 := by decide
 
 end SaVerif.Props.C27
